@@ -89,6 +89,8 @@ def make_corpus(tier, seed):
         corpus.append(dict(c, kind="expr"))
     for c in collect(keytype_cases(), max(40, n[3] // 5), seed * 7 + 5):
         corpus.append(c)
+    for c in collect(unevaluable_cases(), max(60, n[3] // 4), seed * 7 + 8):
+        corpus.append(c)
     corpus.extend(arith_programs())
     corpus.extend(owner_and_item_programs())
     return corpus
@@ -159,6 +161,39 @@ def keytype_cases(draw):
                          unique_by=lambda k: k[2] if isinstance(k[2], str) else int(k[2]) % 4))   # l[-2] is l[2]
     return {"kind": "keytypes", "keys": keys, "container": draw(st.sampled_from(["l", "m"])),
             "then_plain": draw(st.booleans()), "a2": draw(st.sampled_from([3.0, -1.5, 0.0]))}
+
+
+UNEV_OPERANDS = {
+    # operand -> how it fails when evaluated (None = it evaluates)
+    "r['a']": None, "r['b']": None, "e.x": None, "r['n']['p']": None,
+    "r['missing']": "KeyError", "r['n']['zz']": "KeyError", "e.nope": "AttributeError", "e.sub.gone": "AttributeError",
+    "r['a']['k']": "TypeError", "r['l'][9]": "IndexError", "r['s']": "TypeError(str in arithmetic)",
+}
+
+
+@st.composite
+def unevaluable_cases(draw):
+    """assignments of expressions that CANNOT be evaluated at assignment time, several of whose inputs fail in different
+    ways: which error the caller sees is decided by the expression (evaluated left to right), never by the iteration
+    order of a set of references"""
+    good = [k for k, v in UNEV_OPERANDS.items() if v is None]
+    bad = [k for k, v in UNEV_OPERANDS.items() if v is not None]
+    prog = []
+    for i in range(draw(st.integers(1, 3))):
+        nbad = draw(st.sampled_from([1, 2, 2, 3]))
+        ops = draw(st.lists(st.sampled_from(bad), min_size=nbad, max_size=nbad, unique=True))
+        ops += draw(st.lists(st.sampled_from(good), min_size=0, max_size=2))
+        ops = draw(st.permutations(ops))
+        joiners = [draw(st.sampled_from(["+", "*", "-"])) for _ in ops[1:]]
+        prog.append({"target": f"t{i}", "operands": list(ops), "joiners": joiners})
+    return {"kind": "unevaluable", "program": prog}
+
+
+def _unev_text(stm):
+    txt = stm["operands"][0]
+    for j, o in zip(stm["joiners"], stm["operands"][1:]):
+        txt = f"({txt} {j} {o})"
+    return txt
 
 
 def _mk_key(spec):
@@ -283,6 +318,34 @@ def interpret(case):
                 continue
             tr.append(["value", tval(ex._get_value) if E.is_ref(ex) else ["plain", repr(ex)]])
         return tr
+    if kind == "unevaluable":
+        import xdeps
+
+        class Obj:
+            pass
+        e_obj = Obj()
+        e_obj.x = 3.0
+        e_obj.sub = Obj()
+        data = {"a": 2.0, "b": 5.0, "n": {"p": 7.0}, "l": [0.0, 1.0], "s": "txt"}
+        mgr = xdeps.Manager()
+        ns = {"r": mgr.ref(data, "r"), "e": mgr.ref(e_obj, "e")}
+        for stm in case["program"]:
+            text = _unev_text(stm)
+            try:
+                ns["r"][stm["target"]] = eval(text, {}, ns)
+                tr.append(["assign", text, "ok", repr(data.get(stm["target"]))])
+            except RecursionError:
+                tr.append(["assign", text, "exc", "RecursionError"])
+            except Exception as e:
+                tr.append(["assign", text, "exc", type(e).__name__])
+        try:
+            ns["r"]["a"] = 4.0
+            tr.append(["update a", "ok", repr(sorted((k, repr(v)) for k, v in data.items() if k != "l" and k != "n"))])
+        except Exception as e:
+            # the definitions left behind by the failed assignments are re-run here; when several of them read `a`, which
+            # one fails first follows the iteration order: only the fact of raising is compared (see _same_entry)
+            tr.append(["update a", "exc", type(e).__name__])
+        return tr
     if kind == "keytypes":
         import xdeps
         data = {"a": 2.0, "l": [0.0, 1.0, 2.0, 3.0], "m": {0: 0.0, 1: 1.0, 2: 2.0, 3: 3.0, "k": 7.0, -1: 9.0, -2: 8.0}}
@@ -370,6 +433,10 @@ def classify(case):
         return E.n_ops(case["ast"]) >= 2, cls
     if kind == "keytypes":
         return any(k[0] == "np" for k in case["keys"]), cls + ["keytypes:" + k[1] for k in case["keys"]]
+    if kind == "unevaluable":
+        kinds = [{UNEV_OPERANDS[o] for o in stm["operands"]} - {None} for stm in case["program"]]
+        multi = any(len(k) >= 2 for k in kinds)
+        return multi, cls + (["unevaluable:>=2-inputs-failing-differently"] if multi else [])
     if kind == "arith":
         return True, cls + ["arith:" + case["op"]]
     nt = kind in ("pickle", "load")
@@ -389,6 +456,8 @@ def classify(case):
 
 
 def render(case):
+    if case["kind"] == "unevaluable":
+        return {"kind": "unevaluable", "assignments": [f"r[{stm['target']!r}] = {_unev_text(stm)}" for stm in case["program"]]}
     if case["kind"] == "keytypes":
         return dict(case)
     if case["kind"] == "arith":
@@ -464,6 +533,17 @@ def shrink_candidates(case):
             if E.has_ref(s):
                 out.append(dict(case, ast=s))
         return out
+    if case["kind"] == "unevaluable":
+        prog = case["program"]
+        for i in range(len(prog)):
+            if len(prog) > 1:
+                out.append(dict(case, program=prog[:i] + prog[i + 1:]))
+            stm = prog[i]
+            for j in range(len(stm["operands"])):
+                if len(stm["operands"]) > 2:
+                    ops2 = stm["operands"][:j] + stm["operands"][j + 1:]
+                    out.append(dict(case, program=prog[:i] + [dict(stm, operands=ops2, joiners=stm["joiners"][:len(ops2) - 1])] + prog[i + 1:]))
+        return out
     ops = case["ops"]
     n_hist = case.get("n_hist")
     for i in range(len(ops) - 1, -1, -1):
@@ -479,7 +559,7 @@ def shrink_candidates(case):
 
 def valid(case):
     """a shrunk program must still be inside the generator's domain (acyclic, outside K1)"""
-    if case["kind"] in ("expr", "keytypes", "arith"):
+    if case["kind"] in ("expr", "keytypes", "arith", "unevaluable"):
         return True
     try:
         model = W.Model(H.dec_init(case))
